@@ -134,6 +134,9 @@ public:
   inline sandbox_callback& operator=(sandbox_callback&& other)
   {
     if (this != &other) {
+      // end the registration this object currently owns before taking over
+      // other's
+      unregister();
       move_obj(std::forward<sandbox_callback>(other));
     }
     return *this;
